@@ -471,8 +471,12 @@ theorem step_elemBody (ctx : Ctx) (tag : Str) (attrs : List Attr) (kids rest : L
     | member idx =>
       cases idx with
       | zero =>
-        refine conv_bindR (ih (Call.asElem ctx tag attrs kids) ?_ st) (fun res st1 => conv_prepend _ (hrest _ _))
-        right; simp only [Call.depth, Call.ctx, Call.meas, lSize, nSize]; omega
+        simp only []
+        cases onceGate st attrs with
+        | none => exact hrest _ _
+        | some st' =>
+          refine conv_bindR (ih (Call.asElem ctx tag attrs kids) ?_ st') (fun res st1 => conv_prepend _ (hrest _ _))
+          right; simp only [Call.depth, Call.ctx, Call.meas, lSize, nSize]; omega
       | succ i =>
         simp only []
         cases ho : rest[i]? with
